@@ -245,13 +245,20 @@ def run(tier):
         "shared-object-methods": ("import vmod; a = vmod(5);",
                                   "for i in 1 to 3 loop b = a.self(); z = a.other(b).get(); b = vmod(a); end loop; print z b.get();"),
     }
+    # every access to the reference counter is a scheduling point (round 8): four rounds of the copying loop have 235 points, too many
+    # for bound 2 below the schedule cap; the thorough tier explores them at bound 1 and the same loop with two rounds at bound 2
+    bound_of = {}
+    if tier == "thorough":
+        shared["shared-object-copies-short"] = (shared["shared-object-copies"][0], shared["shared-object-copies"][1].replace("1 to 4", "1 to 2"))
     for name, (pre, text) in shared.items():
         path = os.path.join(cdir, name + ".txt")
         with open(path, "w") as f:
             f.write(pre + "\n%%\n" + text)
         corpus.append("@" + path)
+        if tier == "thorough" and name == "shared-object-copies":
+            bound_of["@" + path] = 1
     for p in corpus:
-        jobs.append((asan_exe, p, 2, 2 if tier == "thorough" else 1, 20000, env_a, budget))
+        jobs.append((asan_exe, p, 2, bound_of.get(p, 2 if tier == "thorough" else 1), 20000, env_a, budget))
     jobs.sort(key=lambda j: (0 if j[1] == "deep-error" else 1, -j[2] * j[3]))     # longest first
     total = Result()
     viols = {}
